@@ -162,7 +162,7 @@ func verifErrorsIs(err, target error) bool {
 
 // zcReader: two successive reader calls of any kind over a source with arbitrary behaviour.
 //
-//verif:bounds 2 successive reader calls (7 kinds each), n <= 12 KB, <= 3 source calls in total, every count/err combination per source call; default LinkBufferCap
+//verif:bounds 2 successive reader calls (7 kinds each) + a final Peek of everything buffered, n <= 12 KB, <= 3 source calls in total, every count/err combination per source call; default LinkBufferCap
 //verif:param 0 48
 //verif:loop 20
 func verifHarness_C16_zcreader(param int) {
@@ -171,6 +171,13 @@ func verifHarness_C16_zcreader(param int) {
 	verifReach("call1")
 	if param < 49 {
 		z.call(param % 7)
+	}
+	// whatever the two calls were, everything still buffered reads back as the stream from the
+	// consumption point (a stale peek cache or a lost node would show here)
+	if left := z.r.Len(); left > 0 {
+		p, err := z.r.Peek(left)
+		verifAssert(err == nil && len(p) == left, "C16/final-peek")
+		verifAssert(verifRopeMatch(z.src.produced, z.consumed, p), "C16/final-peek-bytes")
 	}
 	verifReach("end")
 }
